@@ -260,7 +260,16 @@ def replay_witnesses(prop):
 # ---------------------------------------------------------------------------------------------------
 # shrinking and replay
 
-def same_failure(prop, scenario, clause):
+def _exc_type(res, clause):
+    for v in res.violations:
+        if v['clause'] == clause:
+            return (v.get('detail') or {}).get('type')
+    return None
+
+
+def same_failure(prop, scenario, clause, exc_type=None):
+    """the same violation class: same clause and, for clauses about an escaping exception, the same exception type
+    (so that the minimiser cannot drift from one kind of crash into another)"""
     try:
         res = run_quiet(prop, scenario)
     except Exception:
@@ -268,6 +277,8 @@ def same_failure(prop, scenario, clause):
     if res.discarded:
         return False
     if clause not in res.clauses():
+        return False
+    if exc_type is not None and _exc_type(res, clause) != exc_type:
         return False
     env = getattr(prop, 'envelope', None)
     if env is not None and env(scenario):
@@ -279,6 +290,10 @@ def shrink(prop, scenario, clause, max_exec=600, max_s=45.0):
     sh = getattr(prop, 'shrinks', None)
     if sh is None:
         return scenario, 0
+    try:
+        exc_type = _exc_type(run_quiet(prop, scenario), clause)
+    except Exception:
+        exc_type = None
     t0 = time.time()
     n_exec = 0
     cur = scenario
@@ -289,7 +304,7 @@ def shrink(prop, scenario, clause, max_exec=600, max_s=45.0):
             n_exec += 1
             if n_exec >= max_exec or time.time() - t0 > max_s:
                 break
-            if same_failure(prop, cand, clause):
+            if same_failure(prop, cand, clause, exc_type):
                 cur = cand
                 progress = True
                 break
